@@ -36,8 +36,20 @@ AwkLineAlphabet == {"a", "b", " ", "TAB", "CR", "VT", "FF", "NBSP", "NEL", "a`",
 AwkTokAlphabet == AwkLineAlphabet \cup {"LF", "BS", "US", "DEL", "IDSP", "EMSP", "ZWSP", "dag", "e~"}
 ASSUME AwkTokAlphabet \subseteq AllSymbols
 AwkUOnly == {AwkU}
-LineDelims == AllDelims \cup {AwkU}
-LineAlpha(dd) == IF dd = AwkU THEN AwkLineAlphabet ELSE LineAlphabet
+(* Non-ASCII delimiters: a literal of one two-byte character (e-acute), of one three-byte character (box drawings      *)
+(* vertical), of two non-ASCII characters (e-acute + box vertical), and - the same two characters on the regular      *)
+(* expression path - the bracket expression over them.  Their lines are made of the delimiter characters, of            *)
+(* characters sharing the lead bytes of their encodings (e-grave C3 A8, box horizontal E2 94 80), ASCII letters,       *)
+(* SPACE (trailing white space of a stripped field) and a wide character.                                              *)
+U8Delims == {[kind |-> "str", id |-> "e~"], [kind |-> "str", id |-> "bxv"], [kind |-> "str", id |-> "e~bxv"],
+             [kind |-> "re", id |-> "[e~bxv]"]}
+U8LineAlphabet == {"a", "b", " ", "e~", "e`", "bxv", "bxh", "ni"}
+ASSUME U8LineAlphabet \subseteq AllSymbols
+ASSUME \A dd \in U8Delims : DelimChars(dd) \subseteq U8LineAlphabet /\ \A c \in DelimChars(dd) : ~IsAscii(c)
+ASSUME Utf8Len("e~") = 2 /\ Utf8Len("e`") = 2 /\ Utf8Len("bxv") = 3 /\ Utf8Len("bxh") = 3
+LineDelims == AllDelims \cup {AwkU} \cup U8Delims
+FullDelims == AllDelims \cup U8Delims
+LineAlpha(dd) == IF dd = AwkU THEN AwkLineAlphabet ELSE IF dd \in U8Delims THEN U8LineAlphabet ELSE LineAlphabet
 AwkTokAlpha(dd) == AwkTokAlphabet
 (* shape lines for the selection export: one body symbol (multi-byte) plus the delimiter's own symbols *)
 AwkShape   == {"e~", " "}
@@ -46,15 +58,19 @@ CSpShape   == {"e~", ",", " "}
 TabShape   == {"e~", "TAB"}
 CColShape  == {"e~", ",", ":"}
 AwkOnly    == {AwkD}
-FullAlpha(dd) == LineAlphabet
+FullAlpha(dd) == IF dd \in U8Delims THEN U8LineAlphabet ELSE LineAlphabet
 AwkUShape  == {"hori", " ", "NBSP"}
 ShapeAlpha(dd) == CASE dd = AwkU -> AwkUShape
+                    [] dd.id = "e~"      -> {"e`", "e~"}             \* body: the character sharing the lead byte
+                    [] dd.id = "bxv"     -> {"bxh", "bxv"}
+                    [] dd.id = "e~bxv"   -> {"e`", "e~", "bxv"}
+                    [] dd.id = "[e~bxv]" -> {"bxh", "e~", "bxv"}
                     [] dd = AwkD       -> AwkShape
                     [] dd.id = ", "    -> CSpShape
                     [] dd.id = "TAB"   -> TabShape
                     [] dd.id = "[,:]"  -> CColShape
                     [] OTHER           -> CommaShape
-ShapeLen(dd) == IF dd.kind # "awk" /\ dd.id \in {", ", "[,:]"} THEN 6 ELSE 7      \* AWK: 4 fields need 7 symbols
+ShapeLen(dd) == IF dd.kind # "awk" /\ dd.id \in {", ", "[,:]", "e~bxv", "[e~bxv]"} THEN 6 ELSE 7      \* AWK: 4 fields need 7 symbols
 Len2(dd) == 2
 Len3(dd) == 3
 Len4(dd) == 4
@@ -103,7 +119,8 @@ NthMenu == << <<>>,
               <<ExprB(-2)>>, <<ExprAB(2, 3)>>, <<Dots>>, <<ExprN(2), ExprN(1)>>, <<ExprN(1), ExprN(3)>>,
               <<ExprA(3), ExprB(2)>>, <<ExprN(2), ExprA(1)>> >>
 Kinds == <<"exact", "prefix", "suffix", "fuzzy", "xexact">>
-Terms == << <<"a">>, <<"b">>, <<"e~">>, <<",">>, <<"a", "b">>, <<"a", ",">>, <<",", "a">>, <<"e~", "b">>, <<"ni">>, <<"hori">> >>
+Terms == << <<"a">>, <<"b">>, <<"e~">>, <<",">>, <<"a", "b">>, <<"a", ",">>, <<",", "a">>, <<"e~", "b">>, <<"ni">>, <<"hori">>,
+           <<"e`">>, <<"bxh">> >>
 (* combos: index c <-> (nth, kind, term), c = ((n-1)*|Kinds| + (k-1))*|Terms| + t *)
 NCombos == Len(NthMenu) * Len(Kinds) * Len(Terms)
 ComboNth(c) == ((c - 1) \div (Len(Kinds) * Len(Terms))) + 1
@@ -125,7 +142,7 @@ SpecIndex == 12             \* the ordinal the harness passes for {n}: rendered 
 (* --with-nth followed by a search on the rendition: (spec, nth, kind, term) *)
 WNth == << <<>>, <<ExprN(1)>>, <<ExprN(-1)>> >>
 WKinds == <<"exact", "suffix">>
-WTerms == << <<"a">>, <<"e~">>, <<",">>, <<"a", ",">>, <<"b">>, <<":">>, <<"ni">> >>
+WTerms == << <<"a">>, <<"e~">>, <<",">>, <<"a", ",">>, <<"b">>, <<":">>, <<"ni">>, <<"e`">> >>
 NWCombos == Len(SpecMenu) * Len(WNth) * Len(WKinds) * Len(WTerms)
 WSpec(c) == ((c - 1) \div (Len(WNth) * Len(WKinds) * Len(WTerms))) + 1
 WNthOf(c) == (((c - 1) \div (Len(WKinds) * Len(WTerms))) % Len(WNth)) + 1
@@ -139,7 +156,7 @@ ParsedNthMenu == TLCEval([n \in 1..Len(NthMenu) |-> ParseNth(NthMenu[n])])
 ParsedPhMenu == TLCEval([n \in 1..Len(PhMenu) |-> ParseNth(PhMenu[n])])
 ParsedWNth == TLCEval([n \in 1..Len(WNth) |-> ParseNth(WNth[n])])
 (* the character table the C10 alphabets rely on, bound to unicode.IsSpace / the UTF-8 encoder by the harness *)
-CharTable == [s \in LineAlphabet \cup AwkTokAlphabet |->
+CharTable == [s \in LineAlphabet \cup AwkTokAlphabet \cup U8LineAlphabet |->
                  [blank |-> Blank(s), space |-> Space(s), bytes |-> Utf8Len(s), width |-> Width(s)]]
 (* which menu entry a command line --nth really searches with (entry 1 = no --nth), per kind *)
 EffNthIndex(n, k) == LET eff == EffectiveNth(ParsedNthMenu[n], ExtendedKind(Kinds[k])) IN
@@ -151,6 +168,7 @@ Menu == [effnth |-> [n \in 1..Len(NthMenu) |-> [k \in 1..Len(Kinds) |-> EffNthIn
 (* exhaustive design check: every state, every expression, every combo *)
 InvPartition == /\ Partition(line, d) /\ OffsetsExact(line, d) /\ CutsRight(line, d)
                 /\ d.kind = "awk" => AwkByCharacter(line)
+                /\ ByCharacter(line, d) /\ LiteralWhole(line, d)
 InvSelection == LET toks == Tokenize(line, d) IN
                 /\ SelectionDocumented(toks)
                 /\ \A k \in 1..Len(AllExprs) : ParsedExprs[k].ok => SelectionContiguousT(line, toks, ParsedExprs[k])
